@@ -593,10 +593,38 @@ def corpus_cases():
         out.append(json.load(open(os.path.join(CORPUS_DIR, f)))['case'])
   return out
 
+EXHAUSTIVE_CONFIGS = [
+    ('s4', ['dedup', ['regevo', 2, 2, 1], 2, 1, 1, 3]),
+    ('s3h', ['dedup', ['rand', 1], 0, 0, 2, 3]),
+    ('s4', ['hill', 2, 1, 1]),
+    ('s3m', ['dedup', ['gevo', ['sweep'], None, ['laststep', 1, 2], 2], 3, 2, 1, 2]),
+    ('s6', ['nsga2', 2, 1]),
+    ('s6', ['neat', 3, 1]),
+    ('s6', ['dedup', ['sweep'], 2, 0, 2, 2]),
+    ('s4', ['gevo', ['rand', 2], 2, ['top', 1], 1]),
+]
+
+def exhaustive_cases(ctx):
+  """Every event schedule up to a length bound for a few small configurations (every prefix is a crash point,
+  so the schedules of exactly that length cover all shorter ones)."""
+  import itertools
+  alphabet, length, nconf = ctx.scale(('pf', 6, 4), ('pfx', 6, 8))
+  out = []
+  for sp, cfg in EXHAUSTIVE_CONFIGS[:nconf]:
+    m = Space.get(sp).m
+    rewards = [(3 * i + 1) % 5 for i in range(m)]
+    for ev in itertools.product(alphabet, repeat=length):
+      if ev[0] != 'p':
+        continue                       # a leading feedback/abandon is a no-op
+      out.append(('exhaustive', dict(space=sp, alg=cfg, rewards=rewards, sched=list(ev))))
+  ctx.extra['bounded_exhaustive'] = dict(configurations=nconf, alphabet=alphabet, schedule_length=length, runs=len(out),
+                                         what='every schedule over the alphabet of that length starting with a proposal; every prefix is a crash point')
+  return out
+
 def plan(ctx):
   """The case list of a run: corpus, then for every configuration kind the (k, w) schedules of the property, then random schedules."""
   rng = ctx.rng
-  cases = [('corpus', c) for c in corpus_cases()]
+  cases = [('corpus', c) for c in corpus_cases()] + exhaustive_cases(ctx)
   for kind in KINDS:
     for w in (0, 1, 2, 3):
       for n in ctx.scale([9], [6, 14, 30]):
@@ -604,6 +632,27 @@ def plan(ctx):
     for _ in range(ctx.scale(6, 120)):
       cases.append(('random', gen_case(rng, kind)))
   return cases
+
+def shrink(case, signature, crash_point, budget=40):
+  """Smallest schedule found (prefix, then single events removed) on which the oracle still reports `signature`."""
+  def fails(c):
+    try:
+      return any(sig == signature for sig, _, _ in evaluate_case(c)[1])
+    except Exception:
+      return False
+  best = dict(case); n = 0
+  cand = dict(best, sched=best['sched'][:crash_point + 1])
+  if fails(cand):
+    best = cand
+  i = 0
+  while i < len(best['sched']) and n < budget:
+    cand = dict(best, sched=best['sched'][:i] + best['sched'][i + 1:])
+    n += 1
+    if fails(cand):
+      best = cand
+    else:
+      i += 1
+  return best
 
 def _work(case):
   try:
@@ -663,7 +712,9 @@ def run(ctx):
     ctx.extra['crash_points_total'] = ctx.extra.get('crash_points_total', 0) + info['crash_points']
     for sig, what, c in hits:
       nhits += 1
-      ctx.hit(sig, what, dict(case=case, crash_point=c))
+      known = any(f['signature'] == sig for f in ctx.open_findings()) or any(h['signature'] == sig for h in ctx.hits)
+      small = case if known or len(ctx.hits) >= 5 else shrink(case, sig, c)
+      ctx.hit(sig, what, dict(case=small, crash_point=c, original_schedule=''.join(case['sched'])))
   ctx.log('implementation: %d cases, %d crash points, %d oracle hits' % (len(cases), ctx.extra.get('crash_points_total', 0), nhits))
   model = ctx.model_run(trs)
   lookup = {id(t): d for t, d in zip(trs, descr)}
